@@ -95,7 +95,7 @@ func runC06(c *Ctx) error {
 						reason[5] = 0xff
 					}
 				}
-				spec := connSpec{Server: server, Utf8: true}
+				spec := connSpec{Server: server, Utf8: true, WLimit: 65536}
 				conn, tap, err := spec.open(&recHandler{})
 				if err != nil {
 					return err
@@ -136,6 +136,21 @@ func runC06(c *Ctx) error {
 					obs := doSend(conn, tap, op)
 					if obs.Res != 1 || tap.numWrites() != before {
 						c.oracleFail(fmt.Sprintf("%s after close returned %d (%s) and the transport saw %d more writes [%s]", api, obs.Res, obs.ErrText, tap.numWrites()-before, tag), "write-after-close", replay)
+					}
+				}
+				// ... also when the content is something an open connection would refuse (text that is not UTF-8, a payload
+				// above the write limit): the connection being closed is what the caller must be told
+				for _, lp := range []struct {
+					api string
+					op  int
+					pl  []byte
+				}{
+					{"message", 1, []byte{'a', 0xff, 'b'}}, {"string", 1, []byte{0xc3}}, {"writev", 1, []byte{0xe4, 0xb8}}, {"async", 1, []byte{0xff}},
+					{"message", 2, make([]byte, 70000)}, {"writev", 2, make([]byte, 70000)}, {"writevasync", 2, make([]byte, 70000)},
+				} {
+					obs := doSend(conn, tap, sendOp{API: lp.api, Opcode: lp.op, Slices: [][]byte{lp.pl}})
+					if obs.Res != 1 || tap.numWrites() != before {
+						c.oracleFail(fmt.Sprintf("%s with content an open connection would refuse (%d bytes, opcode %d), after close, returned %d (%s), want the closed-connection error; the transport saw %d more writes [%s]", lp.api, len(lp.pl), lp.op, obs.Res, obs.ErrText, tap.numWrites()-before, tag), "write-after-close", replay)
 					}
 				}
 				if e2 := conn.WriteClose(1000, nil); e2 == nil {
